@@ -394,6 +394,8 @@ func runC18(e *Engine, r *Report) {
 	borrow(e, r, "C03", "GD-tally")
 	ruleTallyDistinct(e, r)
 	ruleRestoreRegistersAll(e, r)
+	ruleRemovedLeaderStepsDown(e, r)
+	ruleConfirmFromAllVoters(e, r)
 }
 
 func itoa(i int) string {
